@@ -60,10 +60,10 @@ impl C12 {
 }
 
 const TIMES: &[&str] = &["0", "0.00000000000000001", "10", "10", "20", "-5", "10.5", "1e3", "2147483648", "abc", " 7 ", "10.000000000000001", "20", "0", "0.00000000000000015", "0.0000000000000003", "-0.0000000000000001", "0.00000000000000045", "0.5", "0.5000000000000001", "\u{3000}10", "20\u{a0}", "\u{b}10", "\u{2003}0"];
-const BLS: &[&str] = &["500", "-100", "-50", "0", "-0.5", "1e9", "3000000000", "NaN", "-1000000", "5", "70000", "-20", "x", "inf", "-inf", "333.33", "-100", "500", "6", "60000", "-1000", "-10", "-100.00000000000001", "-200", "-200.00000000000003", "-400", "-400.00000000000006", "-1000.0000000000001", "-10000", "-100000", "nan", "NAN", "+NaN", "-NaN", "-nan", "infinity", "+inf", "-0", "-0.0", "-0e3", "-1e-400", "1e-400", "\u{3000}500", "-100\u{a0}"];
+const BLS: &[&str] = &["500", "-100", "-50", "0", "-0.5", "1e9", "3000000000", "NaN", "-1000000", "5", "70000", "-20", "x", "inf", "-inf", "333.33", "-100", "500", "6", "60000", "-1000", "-10", "-100.00000000000001", "-200", "-200.00000000000003", "-400", "-400.00000000000006", "-1000.0000000000001", "-10000", "-100000", "nan", "NAN", "+NaN", "-NaN", "-nan", "infinity", "+inf", "-0", "-0.0", "-0e3", "-1e-400", "1e-400", "\u{3000}500", "-100\u{a0}", "2147483647", "-2147483647", "2147483647.0", "2.147483647e9", "2147483646", "2147483648", "-2147483648"];
 const SIGS: &[&str] = &["4", "3", "0", "05", "-1", "7", "", "x", "4", "2147483647", "2147483648", "4294967295", "+3", " 5", "-0"];
 const BANKS: &[&str] = &["0", "1", "2", "3", "4", "-1", "x", "\u{85}2", "3\u{2003}"];
-const CUSTOMS: &[&str] = &["0", "1", "2", "x"];
+const CUSTOMS: &[&str] = &["0", "1", "2", "x", "-1", "-2", "65538", "65536", "0", "-1"];
 const VOLS: &[&str] = &["100", "0", "-5", "150", "50", "x", "100", "\u{a0}60", "70\u{3000}"];
 const TCS: &[&str] = &["1", "0", "", "2", "10", "0", "1", " 1", "1 ", " 0", "+1", "01", "1.0", "true", "\t1"];
 const FLS: &[&str] = &["0", "1", "8", "9", "x", "3", "0"];
@@ -92,6 +92,9 @@ fn general_lines(g: i64) -> (Vec<&'static str>, u8, i32) {
         3 => (vec!["SampleSet: Drum", "SampleVolume: 0"], 3, 0),
         4 => (vec!["SampleVolume: 120"], 0, 120),
         5 => (vec!["SampleSet: Soft", "SampleVolume: -30"], 2, -30),
+        // spellings the [General] parser rejects: the default stays None/100
+        6 => (vec!["SampleSet: soft"], 0, 100),
+        7 => (vec!["SampleSet: DRUM", "SampleVolume: 1e2"], 0, 100),
         _ => (vec![], 0, 100),
     }
 }
@@ -150,7 +153,7 @@ impl Scenario for C12 {
         let mut rng = Rng::for_run(seed, "C12", idx);
         let mut p = Plan::new("C12", "seeded", seed, idx);
         p.set("mode", rng.below(4) as i64);
-        p.set("general", rng.below(6) as i64);
+        p.set("general", rng.below(8) as i64);
         p.set("via", *rng.pick(&[0i64, 0, 1, 2]));
         p.set("version", *rng.pick(&[14i64, 14, 5, 6, 7, 9, 13, 128]));
         if rng.chance(1, 6) && !self.sections.is_empty() {
